@@ -107,6 +107,7 @@ pub const HARNESSES: &[(&str, fn())] = &[
     ("c08_waker_steps", c08_threads::c08_waker_steps),
     ("c08_stream_host_wake", c08_threads::c08_stream_host_wake),
     ("c08_capability_executor", c08_threads::c08_capability_executor),
+    ("c08_host_reacts_at_once", c08_threads::c08_host_reacts_at_once),
 ];
 
 #[cfg(all(test, feature = "validate_models"))]
